@@ -110,7 +110,7 @@ def case(job):
             off = pt.OptimizeOptions(scratch_slots=False)
             u0 = normalise(pt.compileTeal(progsem.build(plain), mode, version=version, optimize=off))
             u1 = normalise(pt.compileTeal(progsem.build(ann), mode, version=version, optimize=off))
-            if u0 == u1:
+            if u0 == u1 and is_known_blocked_pair(t1, n0, n1):
                 out["known_optimizer"] = what
             else:
                 out["problems"].append(what)
@@ -121,6 +121,47 @@ def case(job):
         out["problems"].append(f"exception {type(e).__name__}: {e}")
         out["trace"] = traceback.format_exc()[-600:]
     return out
+
+
+def _canon_slots(stream):
+    """slot numbers renamed by first appearance (removing a slot's accesses renumbers the later ones)"""
+    ren, out = {}, []
+    for line in stream:
+        parts = line.split()
+        if len(parts) == 2 and parts[0] in ("store", "load") and parts[1].isdigit():
+            out.append(f"{parts[0]} s{ren.setdefault(parts[1], len(ren))}")
+        else:
+            out.append(line)
+    return out
+
+
+def is_known_blocked_pair(t1: str, n0, n1):
+    """The recorded finding, exactly: `store s`, then only comment lines, then `load s` - the comment op between them hides the pair from
+    the slot optimiser, which would otherwise have removed the slot's accesses.  True iff removing the accesses of some of those slots
+    from the annotated stream gives the plain stream (up to slot renumbering); any other difference is a new violation."""
+    lines = [l.strip() for l in t1.split("\n")]
+    blocked = set()
+    for i, l in enumerate(lines):
+        p = l.split("//")[0].split()
+        if len(p) == 2 and p[0] == "store":
+            j, seen_comment = i + 1, False
+            while j < len(lines) and (lines[j].startswith("//") or not lines[j]):
+                seen_comment = seen_comment or lines[j].startswith("//")
+                j += 1
+            q = lines[j].split("//")[0].split() if j < len(lines) else []
+            if seen_comment and q == ["load", p[1]]:
+                blocked.add(p[1])
+    if not blocked:
+        return False
+    # not every hidden pair would have been removed (the slot may be loaded elsewhere): some non-empty subset must explain the difference
+    import itertools
+    want = _canon_slots(n0)
+    for k in range(1, min(len(blocked), 8) + 1):
+        for sub in itertools.combinations(sorted(blocked), k):
+            n1x = [l for l in n1 if not (l.split()[0] in ("store", "load") and len(l.split()) == 2 and l.split()[1] in sub)]
+            if _canon_slots(n1x) == want:
+                return True
+    return False
 
 
 PROBE_KINDS = ("comment", "assert", "assert2", "subname", "nested-comment")
@@ -181,6 +222,79 @@ def probe(job):
     return out
 
 
+# ---- annotations around a store/load pair the slot optimiser removes ------------------------------------------------------------
+PLACES = ("before-pair", "between", "after-pair", "later-same-block", "later-block", "earlier-block", "inside-stored-value")
+ANNOTS = ("comment-op", "comment-wrap", "assert-comment")
+
+
+def placement_jobs():
+    return [(pl, an, v, ss) for pl in PLACES for an in ANNOTS for (v, ss) in ((8, True), (9, None), (10, None), (10, True), (7, None))]
+
+
+def placement_case(job):
+    """An annotation at each position relative to `x.store(e); x.load()`: the optimiser's decision must not depend on it."""
+    place, annot, version, ss = job
+    from vf.core import use_repo
+    use_repo()
+    import pyteal as pt
+    out = {"job": list(job), "problem": None, "known": None, "ran": 0}
+
+    def build(annotated):
+        x = pt.ScratchVar(pt.TealType.uint64)
+        cond = pt.Txn.fee() < pt.Int(5000)
+
+        def ann(stmt=None):
+            # the annotated variant of `stmt` (or a stand-alone annotation when there is no statement to carry it)
+            if annot == "assert-comment":
+                a = pt.Assert(cond, comment="note") if annotated else pt.Assert(cond)
+                return [a] + ([stmt] if stmt is not None else [])
+            if not annotated:
+                return [stmt] if stmt is not None else []
+            if annot == "comment-wrap" and stmt is not None:
+                return [pt.Comment("note", stmt)]
+            return [pt.Comment("note")] + ([stmt] if stmt is not None else [])
+        store, use = x.store(pt.Txn.fee() + pt.Int(7)), pt.Pop(x.load())
+        pre, mid, post, late, later_block, earlier_block = [], [], [], [], [], []
+        if place == "before-pair":
+            pre = ann()
+        elif place == "between":
+            mid = ann()
+        elif place == "after-pair":
+            post = ann()
+        elif place == "later-same-block":
+            late = ann(pt.Log(pt.Bytes("z")))
+        elif place == "later-block":
+            later_block = ann(pt.Log(pt.Bytes("w")))
+        elif place == "earlier-block":
+            earlier_block = ann(pt.Log(pt.Bytes("e")))
+        elif place == "inside-stored-value":
+            if annot == "assert-comment":
+                return None
+            store = x.store(pt.Comment("note", pt.Txn.fee() + pt.Int(7)) if annotated else pt.Txn.fee() + pt.Int(7))
+        return pt.Seq(pt.If(cond).Then(pt.Seq(*(earlier_block or [pt.Log(pt.Bytes("e"))]))) if place == "earlier-block" else pt.Log(pt.Bytes("s")),
+                      *pre, store, *mid, use, *post, pt.Log(pt.Bytes("y")), *(late or []),
+                      pt.If(cond).Then(pt.Seq(*(later_block or [pt.Log(pt.Bytes("w"))]))), pt.Approve())
+    try:
+        if build(False) is None:
+            return out
+        kw = {"optimize": pt.OptimizeOptions(scratch_slots=ss)} if ss is not None else {}
+        t0 = pt.compileTeal(build(False), pt.Mode.Application, version=version, **kw)
+        t1 = pt.compileTeal(build(True), pt.Mode.Application, version=version, **kw)
+        out["ran"] = 1
+        n0, n1 = normalise(t0), normalise(t1)
+        if n0 != n1:
+            i = next((k for k, (a, b) in enumerate(zip(n0, n1)) if a != b), min(len(n0), len(n1)))
+            what = f"instruction streams differ at #{i}: plain {n0[i:i + 2]} vs annotated {n1[i:i + 2]} (lengths {len(n0)}/{len(n1)})"
+            if is_known_blocked_pair(t1, n0, n1):
+                out["known"] = what
+            else:
+                out["problem"] = what
+                out["teal"] = t1
+    except Exception as e:
+        out["problem"] = f"exception {type(e).__name__}: {str(e)[:200]}"
+    return out
+
+
 def run(report: Report, tier, seed):
     report.trust("fragcheck spec terms for Comment / Nonce / Pragma / Assert(comment) (annotation = child's meaning)", "spec/avm.py TEAL line grammar (used to normalise)")
     report.assume("per-construct part is proved on opaque children (fragcheck); text-level injection (label comments, comment ops) is checked on generated programs with adversarial texts (bounded stand-in)")
@@ -201,10 +315,22 @@ def run(report: Report, tier, seed):
     report.bounded.append(Bounded(function="one annotation construct in a fixed small program", contract="instruction stream identical to the unannotated program (or the text is rejected)",
                                   bound=f"{len(PROBE_KINDS)} constructs (Comment, nested Comment, Assert comment with 1 / 2 conditions, subroutine name) x {len(NASTY)} adversarial texts x versions 2..10",
                                   cases=sum(r["ran"] for r in pr), distinct_nontrivial=len(pj), failures=len(pbad)))
+    plj = placement_jobs()
+    with ProcessPoolExecutor(max_workers=16) as ex:
+        plr = list(ex.map(placement_case, plj, chunksize=4))
+    plbad = [r for r in plr if r["problem"]]
+    report.bounded.append(Bounded(function="annotation placed around a store/load pair that the slot optimiser removes", contract="the optimiser's decision (hence the instruction stream) does not depend on the annotation",
+                                  bound=f"{len(PLACES)} positions relative to the pair x {len(ANNOTS)} annotation forms x 5 (version, scratch_slots) settings", cases=sum(r["ran"] for r in plr),
+                                  distinct_nontrivial=len(plj), failures=len(plbad) + sum(1 for r in plr if r["known"])))
+    for b in plbad[:2]:
+        report.violation(Violation(key=f"placement:{b['job'][0]}:{b['job'][1]}", what=f"annotation {b['job'][1]} at position {b['job'][0]} (v{b['job'][2]}, scratch_slots={b['job'][3]}): {b['problem']}"[:400],
+                                   replay={"input": {"placement": b["job"]}, "teal": b.get("teal")}, confirmed_native=True))
+    if not known:
+        known = [{"known_optimizer": r["known"], "seed": None, "version": r["job"][2], "placement": r["job"]} for r in plr if r["known"]]
     if known:
         k = known[0]
         report.violation(Violation(key="comment-blocks-slot-optimisation", what="with the slot optimiser on, " + k["known_optimizer"],
-                                   replay={"input": {"seed": k["seed"], "version": k["version"]}, "names": k.get("names")}, confirmed_native=True))
+                                   replay={"input": ({"placement": k["placement"]} if k.get("placement") else {"seed": k["seed"], "version": k["version"]}), "names": k.get("names")}, confirmed_native=True))
     report.extra["explanation"] = "P: annotation constructs via fragcheck; B: text-level invariance on generated programs"
     report.settle_refuted(lambda fn, obs: ({"input": {"probe": pbad[0]["job"]}, "what": pbad[0]["problem"]} if pbad else None))
     if pbad and not any(o.status == "refuted" for o in report.obs):
@@ -231,6 +357,10 @@ def replay(data):
         out = probe(tuple(inp["probe"]))
         print(out["problem"])
         return 1 if out["problem"] else 0
+    if "placement" in inp:
+        out = placement_case(tuple(inp["placement"]))
+        print(out["problem"] or out["known"])
+        return 1 if (out["problem"] or out["known"]) else 0
     out = case((inp["seed"], inp["version"]))
-    print(out["problems"])
-    return 1 if out["problems"] else 0
+    print(out["problems"] or out.get("known_optimizer"))
+    return 1 if (out["problems"] or out.get("known_optimizer")) else 0
